@@ -39,6 +39,8 @@ class State:
         self.collect_ops = False
         self.fired = 0
         self.current_solver = None
+        self.probe = 0  # >0: after every satisfiable solve(), that many decided and undecided keys are re-examined (see _probe)
+        self.probe_owner = None  # property under which probe findings are reported
 
 
 def render(solver, limit=40):
@@ -167,6 +169,62 @@ def _well_typed(solver):
     return True
 
 
+def _probe(st, solver, keys, backend, bname):
+    """Exactness of solve() on programs too large for the exact oracles, relative to the back end's own yes/no answers: a key reported
+    with value v must make the program unsatisfiable together with key != v; a key reported None must admit two different values.
+    Uses find_answer of the same Solver on the same program plus ONE extra constraint that is removed again; every .sol is restored."""
+    ctx = st.ctx
+    fa = _orig["find_answer"]
+    saved = [v.sol for v in solver.variables]
+    rng = ctx.rng
+    decided = [v for v in keys if v.sol is not None]
+    undecided = [v for v in keys if v.sol is None]
+    picks = rng.sample(decided, min(st.probe, len(decided))) + rng.sample(undecided, min(st.probe, len(undecided)))
+    reported = {v.id: v.sol for v in keys}
+    n0 = len(solver.constraints)
+
+    def ask(extra):
+        solver.ensure(extra)
+        try:
+            return fa(solver, backend)
+        finally:
+            del solver.constraints[n0:]
+
+    def viol(mech, what, v):
+        st.fired += 1
+        w = {"case": ctx.current_case, "key": v.id, "reported": repr(reported[v.id]), "n_keys": len(keys), "n_vars": len(solver.variables)}
+        if st.probe_owner in (None, ctx.prop):
+            ctx.violation(mech, what, w)
+        else:
+            ctx.count("cross_property_observation:" + mech)
+            ctx.inconc("assistant M-SOLVE probe fired: " + mech, w)
+
+    try:
+        for v in picks:
+            val = reported[v.id]
+            ctx.count("msolve.probe_keys")
+            if val is not None:
+                other = (~v if val else v) if isinstance(val, bool) else (v != val)
+                if ask(other):
+                    viol("probe:key-overclaimed", f"solve({bname}) reported key {v.id} = {val!r} but the program is satisfiable with a different value "
+                         f"({v.sol!r})", v)
+                    return
+                ctx.count("msolve.probe_decided_confirmed")
+            else:
+                if not fa(solver, backend):
+                    return
+                a = v.sol
+                other = (~v if a else v) if isinstance(a, bool) else (v != a)
+                if not ask(other):
+                    viol("probe:key-underclaimed", f"solve({bname}) reported key {v.id} as undetermined but every model gives it {a!r}", v)
+                    return
+                ctx.count("msolve.probe_undecided_confirmed")
+    finally:
+        del solver.constraints[n0:]
+        for var, x in zip(solver.variables, saved):
+            var.sol = x
+
+
 def _solve(self, backend=None):
     st = _state
     orig = _orig["solve"]
@@ -237,6 +295,16 @@ def _solve(self, backend=None):
                     return res
     except IllTyped:
         ctx.count("msolve.illtyped_program")
+    return res
+
+
+def _solve_with_probe(self, backend=None):
+    res = _solve(self, backend)
+    st = _state
+    if st is not None and st.probe and res is True:
+        keys = [v for v, k in zip(self.variables, self.is_answer_key) if k]
+        if keys:
+            _probe(st, self, keys, backend, _backend_name(backend))
     return res
 
 
@@ -334,7 +402,7 @@ def install(ctx, owner="C01", brute_cap=4096, smt=False, judge_exc=False, descri
         _orig["find_answer"] = Solver.find_answer
         _orig["solve"] = Solver.solve
         Solver.find_answer = functools.wraps(_orig["find_answer"])(_find_answer)
-        Solver.solve = functools.wraps(_orig["solve"])(_solve)
+        Solver.solve = functools.wraps(_orig["solve"])(_solve_with_probe)
     _state = State(ctx, owner, brute_cap, smt, judge_exc, describe)
     return _state
 
